@@ -103,7 +103,7 @@ def check(case, rec):
         kwargs['boundary'] = np.int64(bnd)
         kwargs['pad'] = np.bool_(pad)
         fs = np.float64(fs)
-        if fk and 'n_cycles' in fk:
+        if fk and fk.get('n_cycles') is not None:
             kwargs['filter_kwargs'] = dict(fk, n_cycles=(np.int64(fk['n_cycles']) if float(fk['n_cycles']).is_integer() else np.float64(fk['n_cycles'])))
     peaks, troughs = guarded(find_extrema, xin, fs, fr, **kwargs)
     peaks = np.asarray(peaks)
@@ -112,7 +112,7 @@ def check(case, rec):
     p2, t2 = guarded(find_extrema, xin, fs, fr, **kwargs)
     if not (np.array_equal(peaks, p2) and np.array_equal(troughs, t2)):
         raise Violation('second-call-differs', 'find_extrema called twice with the same filter_kwargs object %r gives different extrema' % (kwargs.get('filter_kwargs'),))
-    fk2 = {'n_cycles': {1: 2, 2: 3, 3: 4, 4: 5, 5: 4, 7: 5}.get((fk or {}).get('n_cycles', 3), 2)}
+    fk2 = {'n_cycles': {1: 2, 2: 3, 3: 4, 4: 5, 5: 4, 7: 5}.get((fk or {}).get('n_cycles') or 3, 2)}
     # directly after the calls above: a shorter recording whose PADDED length is the same although its pad is wider
     # a recording whose PADDED length equals that of the first call although its pad is narrower / wider
     if pad and fk2 is not None:
@@ -130,7 +130,7 @@ def check(case, rec):
                 rec.label('equal-padded-length')
     # another filter length on the same signal, band and rate in the same process: results must not depend on what was
     # computed before (no per-process state keyed too coarsely)
-    fk2 = {'n_cycles': {1: 2, 2: 3, 3: 4, 4: 5, 5: 4, 7: 5}.get((fk or {}).get('n_cycles', 3), 2)}
+    fk2 = {'n_cycles': {1: 2, 2: 3, 3: 4, 4: 5, 5: 4, 7: 5}.get((fk or {}).get('n_cycles') or 3, 2)}
     if gen.filt_len_of({'fs': fs, 'f_range': list(fr)}, fk2) + 4 < n:
         try:
             exp2 = ref.ref_extrema(x, fs, fr, fk2, bnd, first, pad)
